@@ -188,7 +188,7 @@ class ProgressivelyTerminalDecider(BaseDecider):
             else:
                 return target - self.grammar.get_distance_to_terminal(n)
 
-        weights = [w(alt) * self.grammar.get_weights()[alt] for alt in alternatives]
+        weights = [w(alt) * self.grammar.get_weights().get(alt, 1.0) for alt in alternatives]
         return self.random.choice_weighted(alternatives, weights)
 
 
